@@ -150,6 +150,7 @@ type vfglClient struct {
 	id     int
 	op     vfglOp
 	busy   bool
+	atGate bool
 	gate   chan struct{}
 	parked chan string
 	done   chan vfglReply
@@ -172,6 +173,8 @@ type vfglWorld struct {
 	gmu     sync.Mutex
 	goids   map[int64]*vfglClient
 	payload int
+	libGate bool // this script also gates go-orbit-db's AddOperation between the log append and the cache write
+	nsub0   int // handler goroutines that were there before this script's service was started (left by an earlier script)
 
 	strmOn     bool
 	strmG      string
@@ -192,10 +195,13 @@ func vfglMust(err error, what string) {
 
 func vfglNewWorld(t testing.TB) *vfglWorld {
 	ctx := context.Background()
+	nsub0 := vfglCount(vfglStacks(), "(*GroupContext).ActivateGroupContext.func1")
 	mn := mocknet.New()
 	tp, cleanup := NewTestingProtocol(ctx, t, &TestingOpts{Mocknet: mn, DiscoveryServer: tinder.NewMockDriverServer()}, nil)
 	w := &vfglWorld{t: t, ctx: ctx, tp: tp, s: tp.Service.(*service), cl: map[int]*vfglClient{}, goids: map[int64]*vfglClient{}}
 	w.cleanup = func() { cleanup(); _ = mn.Close() }
+	w.nsub0 = nsub0
+	vfglQuiesce()
 	cfg, err := w.s.ServiceGetConfiguration(ctx, &protocoltypes.ServiceGetConfiguration_Request{})
 	vfglMust(err, "configuration")
 	w.acctPK = cfg.AccountGroupPk
@@ -209,6 +215,7 @@ func vfglNewWorld(t testing.TB) *vfglWorld {
 	_, _ = crand.Read(seed)
 	_, err = w.s.getAccountGroup().MetadataStore().ContactRequestIncomingReceived(ctx, &protocoltypes.ShareableContact{Pk: w.cRaw, PublicRendezvousSeed: seed})
 	vfglMust(err, "contact request received")
+	vfglQuiesce()
 	w.gC, err = w.s.secretStore.GetGroupForContact(pub)
 	vfglMust(err, "contact group")
 	// the invitation M is bound to until MultiMemberGroupCreate replaces it
@@ -405,15 +412,19 @@ func (w *vfglWorld) launch(cl *vfglClient, o vfglOp, gated bool) {
 	}()
 }
 
-func (w *vfglWorld) await(cl *vfglClient) vfglReply {
+func (w *vfglWorld) await(cl *vfglClient) vfglReply { return w.awaitFor(cl, vfglHangAfter, "hang") }
+
+func (w *vfglWorld) awaitFor(cl *vfglClient, d time.Duration, late string) vfglReply {
+	cl.atGate = false
 	select {
 	case p := <-cl.parked:
+		cl.atGate = true
 		return vfglReply{R: "at:" + p, N: -1}
 	case r := <-cl.done:
 		cl.busy = false
 		return r
-	case <-time.After(vfglHangAfter):
-		return vfglReply{R: "hang", N: -1}
+	case <-time.After(d):
+		return vfglReply{R: late, N: -1}
 	}
 }
 
@@ -447,6 +458,9 @@ func (w *vfglWorld) subscribe(g string) vfglReply {
 		select {
 		case r := <-done:
 			cancel()
+			if r.R != "ok" {
+				r.N = -1
+			}
 			return r
 		default:
 		}
@@ -506,17 +520,65 @@ func (w *vfglWorld) cancelStream() vfglReply {
 	}
 }
 
+// ---------------------------------------------------------------- quiescence
+
+// quiesce waits (bounded) until every event-handler goroutine of a group context sits in its select: the handlers
+// append to the metadata log on their own (secrets for announced members), and an observation taken - or a request
+// started - while such an append is in flight is not reproducible.  Returns false when the bound was hit.
+func vfglQuiesce() bool {
+	deadline := time.Now().Add(10 * time.Second)
+	calm := 0
+	for {
+		busy := false
+		for _, s := range vfglStacks() {
+			if !strings.Contains(s, "(*GroupContext).ActivateGroupContext.func1") {
+				continue
+			}
+			head := s
+			if i := strings.Index(s, "\n"); i > 0 {
+				head = s[:i]
+			}
+			if !strings.Contains(head, "[select") {
+				busy = true
+				break
+			}
+		}
+		if !busy {
+			if calm++; calm >= 2 {
+				return true
+			}
+			time.Sleep(500 * time.Microsecond)
+			continue
+		}
+		calm = 0
+		if time.Now().After(deadline) {
+			return false
+		}
+		time.Sleep(300 * time.Microsecond)
+	}
+}
+
 // ---------------------------------------------------------------- projection
 
 func (w *vfglWorld) proj(settleStream bool) map[string]any {
 	s := w.s
+	quiet := vfglQuiesce()
 	opn, oc, odb, kn, lst := map[string]any{}, map[string]any{}, map[string]any{}, map[string]any{}, map[string]any{}
 	acct := "nil"
+	ol := map[string]any{}
 	s.lock.RLock()
 	for _, g := range []string{"A", "C", "M"} {
 		gc, ok := s.openedGroups[string(w.pk(g))]
 		opn[g] = ok
 		oc[g] = ok && gc != nil && gc.IsClosed()
+		// entries the metadata log of the opened context holds (-1: not opened)
+		ol[g] = -1
+		if ok && gc != nil {
+			func() {
+				defer func() { _ = recover() }()
+				ol[g] = gc.metadataStore.OpLog().Len()
+			}()
+		}
 	}
 	if s.accountGroupCtx != nil {
 		acct = "other"
@@ -551,13 +613,20 @@ func (w *vfglWorld) proj(settleStream bool) map[string]any {
 		_, err := s.secretStore.FetchGroupByPublicKey(w.ctx, vfglPub(w.pk(g)))
 		kn[g] = err == nil
 	}
-	jn := map[string]any{"C": "?", "M": "?"}
+	jn := map[string]any{"C": "?", "M": "?", "cs": "?"}
 	if ag := s.getAccountGroup(); ag != nil && !ag.IsClosed() {
 		func() {
 			defer func() { _ = recover() }()
 			ms := ag.MetadataStore()
 			jn["M"] = map[bool]string{true: "y", false: "n"}[ms.checkIfInGroup(w.gM.PublicKey)]
-			jn["C"] = map[bool]string{true: "y", false: "n"}[ms.getContactStatus(w.cPK) == protocoltypes.ContactState_ContactStateAdded]
+			cs := ms.getContactStatus(w.cPK)
+			jn["C"] = map[bool]string{true: "y", false: "n"}[cs == protocoltypes.ContactState_ContactStateAdded]
+			// the contact's state as the account group's index has it (set-up left it at R = request received)
+			jn["cs"] = map[protocoltypes.ContactState]string{protocoltypes.ContactState_ContactStateUndefined: "U", protocoltypes.ContactState_ContactStateReceived: "R",
+				protocoltypes.ContactState_ContactStateAdded: "A"}[cs]
+			if jn["cs"] == "" {
+				jn["cs"] = "X"
+			}
 		}()
 	}
 	// read-only probe: does a listing of the messages work on each group, and how many does it return
@@ -580,8 +649,8 @@ func (w *vfglWorld) proj(settleStream bool) map[string]any {
 		}()
 	}
 	stacks := vfglStacks()
-	st := map[string]any{"op": opn, "oc": oc, "acct": acct, "odb": odb, "kn": kn, "jn": jn, "lst": lst,
-		"nsub": vfglCount(stacks, "(*GroupContext).ActivateGroupContext.func1"), "closed": w.closed}
+	st := map[string]any{"op": opn, "oc": oc, "acct": acct, "odb": odb, "kn": kn, "jn": jn, "lst": lst, "ol": ol,
+		"nsub": vfglCount(stacks, "(*GroupContext).ActivateGroupContext.func1") - w.nsub0, "closed": w.closed, "quiet": quiet}
 	strm := map[string]any{"on": w.strmOn, "g": "-", "alive": false, "n": 0}
 	if w.strmOn {
 		if settleStream {
@@ -630,6 +699,11 @@ func vfglB2i(b bool) int {
 func vfglRunScript(t testing.TB, sc vfScript, emit func(map[string]any)) {
 	base0, _ := vfglRootFrames(vfglStacks())
 	w := vfglNewWorld(t)
+	if b, _ := sc.Cfg["libgate"].(bool); b {
+		w.libGate = true
+		vfglLibGateOn.Store(true)
+		defer vfglLibGateOn.Store(false)
+	}
 	emit(map[string]any{"ev": "reset", "id": sc.ID})
 	emit(map[string]any{"ev": "init", "st": w.proj(false)})
 	dead := false
@@ -667,9 +741,17 @@ func vfglRunScript(t testing.TB, sc vfScript, emit func(map[string]any)) {
 						"msg": "", "site": "", "stack": "", "st": w.proj(false)})
 					continue
 				}
-				cl.gate <- struct{}{}
+				if cl.atGate {
+					cl.gate <- struct{}{}
+				}
 			}
-			r := w.await(cl)
+			var r vfglReply
+			if st.Act == "step" && st.Y == 1 {
+				// non-blocking step (log-loss demonstration): the request may be waiting for a lock another parked request holds
+				r = w.awaitFor(cl, 1500*time.Millisecond, "blocked")
+			} else {
+				r = w.await(cl)
+			}
 			if r.R == "hang" {
 				dead = true
 			}
@@ -715,7 +797,9 @@ func vfglRunScript(t testing.TB, sc vfScript, emit func(map[string]any)) {
 		cl := w.cl[c]
 		for n := 0; cl.busy && !dead && n < 8; n++ {
 			parkedLeft++
-			cl.gate <- struct{}{}
+			if cl.atGate {
+				cl.gate <- struct{}{}
+			}
 			if r := w.await(cl); r.R == "hang" {
 				dead = true
 			}
